@@ -15,6 +15,7 @@ import (
 	"fmt"
 	"io"
 	"math"
+	"reflect"
 	"sort"
 	"strconv"
 	"strings"
@@ -532,6 +533,9 @@ type env struct {
 	ctxs     map[string]string // reply subject -> Coq ctx term
 	curApply applyv
 	curReq   []ract // script for the next request handler invocation
+	curWire  []byte // payload of that request as sent on the wire
+	curReply string
+	seen     []string // Coq terms (reply, (IsHTTP, CID)) as observed by the handlers
 	curQuery []qact
 	qmu      sync.Mutex
 	impl     []string
@@ -585,6 +589,7 @@ func (e *env) start() {
 		s.SetOwnedResources(e.cfg.setRes, e.cfg.setAcc)
 	}
 	run := func(r *res.Request) {
+		e.checkObserved(r)
 		script := e.curReq
 		for i := range script {
 			script[i].do(e, r)
@@ -654,6 +659,53 @@ func (e *env) start() {
 		panic(fmt.Sprint("harness: Serve returned: ", err))
 	case <-time.After(waitFor):
 		panic("harness: service did not start")
+	}
+}
+
+// wireReq mirrors the documented request payload; decoding the wire bytes into a FRESH value gives
+// what the handler must observe (an absent field = zero value).
+type wireReq struct {
+	CID        string              `json:"cid"`
+	Params     json.RawMessage     `json:"params"`
+	Token      json.RawMessage     `json:"token"`
+	Header     map[string][]string `json:"header"`
+	Host       string              `json:"host"`
+	RemoteAddr string              `json:"remoteAddr"`
+	URI        string              `json:"uri"`
+	Query      string              `json:"query"`
+	IsHTTP     bool                `json:"isHttp"`
+}
+
+// checkObserved reports request fields the handler sees that differ from the request as sent
+// (e.g. state leaking from an earlier request on the same service).
+func (e *env) checkObserved(r *res.Request) {
+	var w wireReq
+	if len(e.curWire) > 0 {
+		if err := json.Unmarshal(e.curWire, &w); err != nil {
+			return
+		}
+	}
+	e.seen = append(e.seen, fmt.Sprintf("(%s,(%s,%s))", cs(e.curReply), Bool(r.IsHTTP()), cs(sanitize(r.CID()))))
+	var diff []string
+	chk := func(name string, got, want interface{}) {
+		if !reflect.DeepEqual(got, want) {
+			diff = append(diff, fmt.Sprintf("%s=%v (sent %v)", name, got, want))
+		}
+	}
+	if r.IsHTTP() != w.IsHTTP || r.CID() != w.CID { // compared with the model in Coq (mismatch code 5)
+		e.tags["request-field-leak"] = true
+		e.hit("leak:isHttp-or-cid")
+	}
+	chk("RawParams", string(r.RawParams()), string(w.Params))
+	chk("RawToken", string(r.RawToken()), string(w.Token))
+	chk("Header", r.Header(), w.Header)
+	chk("Host", r.Host(), w.Host)
+	chk("RemoteAddr", r.RemoteAddr(), w.RemoteAddr)
+	chk("URI", r.URI(), w.URI)
+	chk("Query", r.Query(), w.Query)
+	if len(diff) > 0 {
+		e.tags["request-field-leak"] = true
+		e.impl = append(e.impl, "handler observes request fields that differ from the request as sent on the wire: "+strings.Join(diff, ", ")+" payload="+strconv.Quote(string(e.curWire)))
 	}
 }
 
@@ -919,6 +971,26 @@ func aHeader(k string, vs []string) ract {
 		r.ResponseHeader()[k] = vs
 	}}
 }
+func aStatusIfHTTP(n int) ract {
+	return ract{fmt.Sprintf("if IsHTTP{SetResponseStatus(%d)}", n), konst("(ASetStatusIfHTTP " + zc(int64(n)) + ")"), func(e *env, r *res.Request) {
+		e.hit("meta:status-if-http")
+		if r.IsHTTP() {
+			r.SetResponseStatus(n)
+		}
+	}}
+}
+func aHeaderIfHTTP(k string, vs []string) ract {
+	sv := make([]string, len(vs))
+	for i, v := range vs {
+		sv[i] = sanitize(v)
+	}
+	return ract{fmt.Sprintf("if IsHTTP{Header[%q]=%q}", k, vs), konst("(AHeaderIfHTTP " + cs(sanitize(k)) + " " + csList(sv) + ")"), func(e *env, r *res.Request) {
+		e.hit("meta:header-if-http")
+		if r.IsHTTP() {
+			r.ResponseHeader()[k] = vs
+		}
+	}}
+}
 func aToken(v HVal) ract {
 	return ract{"TokenEvent(" + v.Name + ")", konst("(ATokenEvent " + v.coq() + ")"), func(e *env, r *res.Request) { e.hit("req:tokenevent"); r.TokenEvent(v.Go) }}
 }
@@ -975,6 +1047,8 @@ type reqv struct {
 	http   bool
 	cid    string
 	raw    []byte // payload override (nil = built from the fields)
+	keys   []string // optional payload fields to write (nil = legacy: all of cid, isHttp, token, params);
+	// with keys set, "isHttp" is written only if http is true or "isHttp" is listed, "cid" only if listed
 	disp   string // Coq dispatch term when not DRun
 	script []ract
 }
@@ -987,7 +1061,13 @@ func tRequest(q reqv) top {
 			for i, a := range q.script {
 				n[i] = a.name
 			}
-			return fmt.Sprintf("%s %s http=%v %s[%s]", q.rtype, q.rname, q.http, q.disp, strings.Join(n, "; "))
+			wire := ""
+			if q.raw != nil {
+				wire = " payload=" + strconv.Quote(string(q.raw))
+			} else if q.keys != nil {
+				wire = " fields=" + strings.Join(q.keys, ",")
+			}
+			return fmt.Sprintf("%s %s http=%v%s %s[%s]", q.rtype, q.rname, q.http, wire, q.disp, strings.Join(n, "; "))
 		}(),
 		func() string {
 			d := q.disp
@@ -1012,7 +1092,35 @@ func tRequest(q reqv) top {
 				subj += "." + q.method
 			}
 			data := q.raw
-			if data == nil {
+			if data == nil && q.keys != nil {
+				m := map[string]interface{}{}
+				if q.http {
+					m["isHttp"] = true
+				}
+				for _, k := range q.keys {
+					switch k {
+					case "isHttp":
+						m["isHttp"] = q.http
+					case "cid":
+						m["cid"] = q.cid
+					case "token":
+						m["token"] = map[string]interface{}{"user": "u" + strconv.Itoa(e.nreply)}
+					case "params":
+						m["params"] = []interface{}{e.nreply, "p"}
+					case "query":
+						m["query"] = "q=" + strconv.Itoa(e.nreply)
+					case "header":
+						m["header"] = map[string][]string{"Origin": {"http://h" + strconv.Itoa(e.nreply)}}
+					case "host":
+						m["host"] = "host" + strconv.Itoa(e.nreply)
+					case "remoteAddr":
+						m["remoteAddr"] = "10.0.0." + strconv.Itoa(e.nreply)
+					case "uri":
+						m["uri"] = "/ws?" + strconv.Itoa(e.nreply)
+					}
+				}
+				data, _ = json.Marshal(m)
+			} else if data == nil {
 				m := map[string]interface{}{"cid": q.cid, "isHttp": q.http, "token": map[string]interface{}{"user": "x"}, "params": map[string]interface{}{"p": 1}}
 				if q.rtype == "get" {
 					m = map[string]interface{}{"isHttp": q.http}
@@ -1023,6 +1131,8 @@ func tRequest(q reqv) top {
 				data, _ = json.Marshal(m)
 			}
 			e.curReq = q.script
+			e.curWire = data
+			e.curReply = reply
 			ch := make(chan struct{})
 			doneMu.Lock()
 			doneCh[subj] = ch
@@ -1208,7 +1318,7 @@ func runCase(idx int, d desc, cd caseDef, dist map[string]int) (Case, []ImplViol
 		d.Summary = d.Summary[:600] + "..."
 	}
 	c := Case{
-		Term:       fmt.Sprintf("CC %s\n %s\n %s", cd.cfg.coq(), List(ts), List(obs)),
+		Term:       fmt.Sprintf("CC %s\n %s\n %s\n %s", cd.cfg.coq(), List(ts), List(obs), List(e.seen)),
 		Desc:       d,
 		Nontrivial: nontrivial,
 		Key:        cd.cfg.coq() + "|" + strings.Join(names, "|"),
@@ -1616,12 +1726,18 @@ func pickR(r *Rng, with bool, http bool, auth bool) ract {
 	case 11:
 		return aTimeout([]time.Duration{0, 5 * time.Second, 123456789, -5}[r.Intn(4)])
 	case 12, 13:
-		if http || r.Chance(15) {
+		if r.Chance(35) {
+			return aStatusIfHTTP([]int{201, 404, 0}[r.Intn(3)])
+		}
+		if http || r.Chance(25) {
 			return aStatus([]int{0, 200, 404, 503, -1}[r.Intn(5)])
 		}
 		return aTimeout(time.Second)
 	case 14, 15:
-		if http || r.Chance(15) {
+		if r.Chance(35) {
+			return aHeaderIfHTTP(r.Pick([]string{"Location", "X-A"}), [][]string{{"/x"}, {"v1", "v2"}}[r.Intn(2)])
+		}
+		if http || r.Chance(25) {
 			return aHeader(r.Pick([]string{"A", "B", "Set-Cookie", ""}), [][]string{{}, {"v"}, {"v1", "v\"2"}}[r.Intn(3)])
 		}
 		return aOK(pickVal(r))
@@ -1662,6 +1778,163 @@ func pickQ(r *Rng) qact {
 	return qW(w)
 }
 
+var optKeys = []string{"token", "params", "query", "header", "host", "remoteAddr", "uri"}
+
+// pickWire chooses how the request is encoded on the wire: fields are OMITTED rather than written
+// as zero values (a request not flagged HTTP normally has no isHttp field at all), or the payload
+// is empty / null / {}.
+func pickWire(r *Rng, q *reqv, needCid bool) {
+	if !q.http && !needCid {
+		switch r.Intn(10) {
+		case 0:
+			q.raw, q.cid = []byte(""), ""
+			return
+		case 1:
+			q.raw, q.cid = []byte("null"), ""
+			return
+		case 2:
+			q.raw, q.cid = []byte("{}"), ""
+			return
+		}
+	}
+	keys := []string{}
+	if !q.http && r.Chance(30) {
+		keys = append(keys, "isHttp") // explicit "isHttp":false
+	}
+	if needCid || r.Chance(60) {
+		keys = append(keys, "cid")
+	} else {
+		q.cid = ""
+	}
+	for _, k := range optKeys {
+		if r.Chance(35) {
+			keys = append(keys, k)
+		}
+	}
+	q.keys = keys
+}
+
+func pickMetaScript(r *Rng, http bool) []ract {
+	var sc []ract
+	for j, m := 0, r.Intn(3); j < m; j++ {
+		switch r.Intn(5) {
+		case 0:
+			sc = append(sc, aStatusIfHTTP([]int{201, 404, 503}[r.Intn(3)]))
+		case 1:
+			sc = append(sc, aHeaderIfHTTP("Location", []string{"/new/" + strconv.Itoa(r.Intn(9))}))
+		case 2:
+			sc = append(sc, aStatus([]int{201, 302}[r.Intn(2)]))
+		case 3:
+			sc = append(sc, aHeader("Set-Cookie", []string{"a=b"}))
+		default:
+			sc = append(sc, aTimeout(time.Second))
+		}
+	}
+	switch r.Intn(8) {
+	case 0:
+		sc = append(sc, aNotFound())
+	case 1:
+		sc = append(sc, aAccess(true, "*"))
+	case 2:
+		sc = append(sc, aError(pickErr(r)))
+	case 3:
+		sc = append(sc, aResource("test.model.2"))
+	case 4: // missing response
+	case 5:
+		sc = append(sc, aW(wPanic(pickPk(r))))
+	default:
+		sc = append(sc, aOK(pickVal(r)))
+	}
+	return sc
+}
+
+// seqCase: several requests in a row through ONE running service; every request is validated against
+// its OWN flags as sent on the wire (a field that is absent = zero value), so state that leaks from
+// one request into a later one shows as meta on a non-HTTP response (V1) / a model mismatch / a
+// handler-observed field that was not sent.
+func seqCase(seed uint64) caseDef {
+	r := NewRng(seed)
+	ts := []top{tStart()}
+	n := 3 + r.Intn(6)
+	for i := 0; i < n; i++ {
+		rt := r.Pick([]string{"access", "get", "call", "auth", "call", "auth"})
+		http := rt != "get" && (i == 0 || r.Chance(30))
+		q := reqv{rtype: rt, rname: rnames[r.Intn(len(rnames))], method: r.Pick([]string{"set", "new", "m"}), http: http, cid: "cid" + strconv.Itoa(r.Intn(100))}
+		pickWire(r, &q, false)
+		if r.Chance(75) {
+			q.script = pickMetaScript(r, http)
+		} else {
+			for j, m := 0, r.Intn(5); j < m; j++ {
+				q.script = append(q.script, pickR(r, false, http, rt == "auth" && q.cid != ""))
+			}
+		}
+		ts = append(ts, tRequest(q))
+	}
+	return caseDef{cfgv{}, ts}
+}
+
+func directedSeqs() []caseDef {
+	var out []caseDef
+	firstTypes := []string{"call", "auth", "access"}
+	wires := []func(q *reqv){
+		func(q *reqv) { q.keys = []string{"cid"} },                     // isHttp absent
+		func(q *reqv) { q.keys = []string{"cid", "token", "params"} },  // isHttp absent, other fields
+		func(q *reqv) { q.raw, q.cid = []byte(""), "" },               // empty payload
+		func(q *reqv) { q.raw, q.cid = []byte("null"), "" },           // null
+		func(q *reqv) { q.raw, q.cid = []byte("{}"), "" },             // empty object
+		func(q *reqv) { q.keys = []string{"cid", "isHttp"} },           // explicit "isHttp":false
+	}
+	handlers := []func() []ract{
+		func() []ract { return []ract{aStatusIfHTTP(201), aOK(goods[2])} },
+		func() []ract { return []ract{aHeaderIfHTTP("Location", []string{"/x"}), aOK(goods[0])} },
+		func() []ract { return []ract{aStatus(201), aOK(goods[2])} },
+		func() []ract { return []ract{aHeader("Location", []string{"/x"}), aNotFound()} },
+		func() []ract { return []ract{aStatusIfHTTP(404), aHeaderIfHTTP("X-A", []string{"1", "2"}), aAccess(true, "*")} },
+	}
+	k := 0
+	for wi, w := range wires {
+		for _, rt := range []string{"access", "get", "call", "auth"} {
+			for hi, h := range handlers {
+				ft := firstTypes[k%3]
+				k++
+				first := reqv{rtype: ft, rname: rnames[k%len(rnames)], method: "m", http: true, cid: "cidA", keys: []string{"cid", "token", "params", "header", "host", "remoteAddr", "uri", "query"}}
+				if (wi+hi)%2 == 0 {
+					first.script = []ract{aStatusIfHTTP(200), aOK(goods[2])}
+				} else {
+					first.script = []ract{aOK(goods[0])}
+				}
+				second := reqv{rtype: rt, rname: rnames[(k+1)%len(rnames)], method: "m", cid: "cidB"}
+				w(&second)
+				second.script = h()
+				out = append(out, caseDef{cfgv{}, []top{tStart(), tRequest(first), tRequest(second)}})
+			}
+		}
+	}
+	// the flag must not stick: HTTP, then several unflagged requests, HTTP again, unflagged again
+	for _, rt := range []string{"access", "call", "auth"} {
+		mk := func(http bool, keys []string, sc []ract) top {
+			cid := ""
+			for _, k := range keys {
+				if k == "cid" {
+					cid = "cidS"
+				}
+			}
+			return tRequest(reqv{rtype: rt, rname: "test.model.1", method: "m", http: http, cid: cid, keys: keys, script: sc})
+		}
+		out = append(out, caseDef{cfgv{}, []top{tStart(),
+			mk(false, []string{"cid"}, []ract{aStatusIfHTTP(201), aOK(goods[2])}),
+			mk(true, []string{"cid", "token"}, []ract{aStatusIfHTTP(201), aOK(goods[2])}),
+			mk(false, []string{}, []ract{aStatusIfHTTP(201), aOK(goods[2])}),
+			mk(false, []string{"cid"}, []ract{aHeaderIfHTTP("Location", []string{"/y"}), aOK(goods[2])}),
+			mk(false, []string{"params"}, []ract{aStatus(302), aOK(goods[2])}),
+			mk(true, []string{"cid"}, []ract{aStatus(302), aHeader("Location", []string{"/z"}), aOK(goods[0])}),
+			mk(false, []string{"cid", "isHttp"}, []ract{aStatusIfHTTP(201), aOK(goods[2])}),
+			mk(false, []string{"cid"}, []ract{aStatusIfHTTP(201), aError(errarg{kind: 1, e: errvs()[0]})}),
+		}})
+	}
+	return out
+}
+
 func randomCase(seed uint64) caseDef {
 	r := NewRng(seed)
 	with := r.Chance(40)
@@ -1678,11 +1951,14 @@ func randomCase(seed uint64) caseDef {
 			rt := r.Pick([]string{"access", "get", "call", "auth"})
 			http := rt != "get" && r.Chance(50)
 			rn := rnames[r.Intn(len(rnames))]
-			var sc []ract
-			for j, m := 0, r.Intn(6); j < m; j++ {
-				sc = append(sc, pickR(r, with, http, rt == "auth"))
+			q := reqv{rtype: rt, rname: rn, method: r.Pick([]string{"set", "new", "m"}), http: http, cid: "cid" + strconv.Itoa(r.Intn(100))}
+			if r.Chance(60) {
+				pickWire(r, &q, false)
 			}
-			ts = append(ts, tRequest(reqv{rtype: rt, rname: rn, method: r.Pick([]string{"set", "new", "m"}), http: http, cid: "cid" + strconv.Itoa(r.Intn(100)), script: sc}))
+			for j, m := 0, r.Intn(6); j < m; j++ {
+				q.script = append(q.script, pickR(r, with, http, rt == "auth" && q.cid != ""))
+			}
+			ts = append(ts, tRequest(q))
 		case k < 7:
 			rn := rnames[r.Intn(len(rnames))]
 			var sc []wact
@@ -1728,14 +2004,22 @@ func main() {
 		if err := LoadReplay(o.Replay, &d); err != nil {
 			panic(err)
 		}
-		if d.Gen == "directed" {
+		switch d.Gen {
+		case "directed":
 			addCase(d, directed()[d.Idx])
-		} else {
+		case "directed-seq":
+			addCase(d, directedSeqs()[d.Idx])
+		case "seq":
+			addCase(d, seqCase(d.Seed))
+		default:
 			addCase(d, randomCase(d.Seed))
 		}
 	} else {
 		for i, cd := range directed() {
 			addCase(desc{Gen: "directed", Idx: i}, cd)
+		}
+		for i, cd := range directedSeqs() {
+			addCase(desc{Gen: "directed-seq", Idx: i}, cd)
 		}
 		n := 500
 		if o.Tier == "thorough" {
@@ -1749,8 +2033,12 @@ func main() {
 			s := master.Next()
 			addCase(desc{Gen: "random", Seed: s}, randomCase(s))
 		}
+		for i := 0; i < n/3; i++ {
+			s := master.Next()
+			addCase(desc{Gen: "seq", Seed: s}, seqCase(s))
+		}
 	}
 	Emit(o, "C07", "From GoRes Require Import Run.Run_C07.\nFrom Coq Require Import String.", "ccase",
-		"directed cases (every reply method x every catalogue value incl. 13 unmarshalable ones x meta combinations x HTTP flag, error values with/without data, nil *Error via Error() and panic(), panics of every kind, Timeout, every event method x resource type x apply outcome, custom event names, Service.Reset/ResetAll/TokenEvent/TokenEventWithID/TokenReset with valid and invalid arguments, query events with query requests) + random handler/With/query scripts of 0-5 actions on a real res.Service over a recording connection; every published message is validated; non-trivial = the service published something besides the start-up system.reset; distinct by the list of inputs",
+		"directed cases (every reply method x every catalogue value incl. 13 unmarshalable ones x meta combinations x HTTP flag, error values with/without data, nil *Error via Error() and panic(), panics of every kind, Timeout, every event method x resource type x apply outcome, custom event names, Service.Reset/ResetAll/TokenEvent/TokenEventWithID/TokenReset with valid and invalid arguments, query events with query requests) + random handler/With/query scripts of 0-5 actions on a real res.Service over a recording connection + request SEQUENCES on one running service (HTTP-flagged then unflagged / empty / null / explicit-false payloads with fields omitted rather than zeroed, handlers setting meta conditionally on IsHTTP() and unconditionally; each request validated against its own wire flags, handler-observed request fields compared with the wire); every published message is validated; non-trivial = the service published something besides the start-up system.reset; distinct by the list of inputs",
 		cases, dist, nil, impl, 250)
 }
